@@ -265,10 +265,25 @@ struct Coord {
     }
   }
   // synchronous call with a generous timeout; timeout => inconclusive
+  bool hang_is_verdict = false; string case_text, prop;
+  static string syscall_of(pid_t pid) { char p[64]; snprintf(p, sizeof p, "/proc/%d/syscall", (int)pid); FILE *f = fopen(p, "r"); if (!f) return ""; char b[256] = ""; if (!fgets(b, sizeof b, f)) b[0] = 0; fclose(f); return b; }
   string call(int i, const string &line, int timeout_ms = 10000) {
     send(i, line);
     string r;
-    if (!recv(i, r, timeout_ms)) { out.inconclusive = true; vl::stats().count("inconclusive_worker_timeout"); return "TIMEOUT"; }
+    if (!recv(i, r, hang_is_verdict ? 4000 : timeout_ms)) {
+      if (hang_is_verdict) {
+        // sequential history: every other worker is idle, so a worker that sits in a futex wait (sem_wait of the buffer lock) can never be released
+        string a = syscall_of(ws[(size_t)i].pid); usleep(400000); string b = syscall_of(ws[(size_t)i].pid);
+        if (a.rfind("202 ", 0) == 0 && a == b) {
+          vl::report_failure("mp_hang", case_text, prop + ":operation-does-not-return: '" + line + "' never returned: the worker process is blocked in a futex wait although no other process is inside an operation (a lock was not released on some return path)", "operation-does-not-return");
+          vl::stats().flush();
+          printf("REPLAY-FAIL %s:operation-does-not-return: worker blocked forever in the buffer lock\n", prop.c_str()); fflush(stdout);
+          shutdown();
+          _exit(1);
+        }
+      }
+      out.inconclusive = true; vl::stats().count("inconclusive_worker_timeout"); return "TIMEOUT";
+    }
     return r;
   }
   void shutdown() {
@@ -656,6 +671,7 @@ Outcome run_c07(const Case &c, bool thorough) {
 // ---- C08 multi-process layer ---------------------------------------------------------------------------------
 Outcome run_c08(const Case &c, bool thorough) {
   Coord co; char u[48]; snprintf(u, sizeof u, "v8_%d_", (int)getpid()); co.uniq = u;
+  co.hang_is_verdict = true; co.case_text = to_text(c); co.prop = "C08";
   int P = 3; co.spawn(P);
   string name = co.uniq + "b"; co.names_used.insert(name);
   size_t S = 64;
